@@ -53,6 +53,11 @@ def export_landmark_file(landmarks_object, fp, extension=None, overwrite=False):
     ValueError
         The provided type for landmarks_object is not supported.
     """
+    if isinstance(fp, (str, Path)):
+        # The overwrite guard comes first, as in every other exporter: an
+        # existing file is reported as an OverwriteError even if the call
+        # would be rejected for another reason further down.
+        _validate_filepath(Path(fp), overwrite)
     extension = _normalize_extension(extension)
 
     try:
